@@ -158,3 +158,31 @@ func (e *Engine) selfTest(verif, prop string) []mutantResult {
 	wg.Wait()
 	return results
 }
+
+// externSanity executes the functional extern contracts against the installed
+// standard library (spec/extern_sanity_test.go.txt, injected with -overlay).
+func (e *Engine) externSanity(verif string) (bool, string) {
+	src := filepath.Join(verif, "spec", "extern_sanity_test.go.txt")
+	if _, err := os.Stat(src); err != nil {
+		return true, "no extern sanity test present"
+	}
+	dir, err := os.MkdirTemp("", "cbv-extern-")
+	if err != nil {
+		return true, "could not create a scratch directory: " + err.Error()
+	}
+	defer os.RemoveAll(dir)
+	ov := map[string]map[string]string{"Replace": {filepath.Join(e.repo, "zz_cbv_extern_sanity_test.go"): src}}
+	ob, _ := json.Marshal(ov)
+	ovFile := filepath.Join(dir, "ov.json")
+	os.WriteFile(ovFile, ob, 0o644)
+	cmd := exec.Command("sh", "-c", fmt.Sprintf("cd %s && go test -overlay %s -vet=off -count=1 -timeout 120s -run '^TestCbvExternSanity$' . 2>&1 | tail -15", e.repo, ovFile))
+	cmd.Env = append(os.Environ(), "GOFLAGS=-mod=mod", "GOPROXY=off", "GOSUMDB=off", "GOTOOLCHAIN=local")
+	out, _ := cmd.CombinedOutput()
+	s := strings.TrimSpace(string(out))
+	return strings.HasPrefix(lastLine(s), "ok"), s
+}
+
+func lastLine(s string) string {
+	l := strings.Split(strings.TrimSpace(s), "\n")
+	return l[len(l)-1]
+}
